@@ -206,7 +206,7 @@ def apply_ref(pop, act):
 
 
 def run_agent_arm(sc, ctx):
-    m = Model()
+    m = Model(seed=20260927)
     w = AgentWorld(m, ctx)
     pop = {}
     for a in sc["agents0"]:
@@ -360,7 +360,7 @@ class FileWorld:
 
 
 def run_file_arm(sc, ctx):
-    m = Model()
+    m = Model(seed=20260927)
     w = FileWorld(ctx)
     real = bool(sc.get("real_file"))
     cols = []
